@@ -307,7 +307,7 @@ def common_summaries():
         a, b = argv[0], argv[1]
         return [(st, Int(z3.If(z3.UGE(a.bv, b.bv), a.bv, b.bv), a.width, False))]
 
-    @reg(r'^<(u64|usize|u32) as From<(u8|u16|u32)>>::from$')
+    @reg(r'^<(u16|u32|u64|usize|u128) as From<(u8|u16|u32|u64)>>::from$')
     def int_from(ex, st, fn, argv):
         w = INT_TYPES[re.match(r'^<(\w+) as', fn).group(1)][0]
         a = argv[0]
@@ -396,6 +396,112 @@ def common_summaries():
                 if e is None:
                     e = Lazy('unknown-error', f"{c[0].origin}#1.0")
                 outs.append((s, ('CALL', c[1], [e], ('wrap_err',))))
+        return outs
+
+
+    # ---------------- std combinators (closure is inlined from MIR; only the plumbing is summarised)
+    def payload0(ex, s, en, idx, tyhint=None):
+        pay = en.payloads.get(idx)
+        if pay is None:
+            pay = en.payloads[idx] = Agg({}, '', f"{en.origin}#{idx}")
+        if 0 not in pay.fields:
+            pay.fields[0] = ex.fresh_of_type(tyhint, f"{pay.origin}.0") if tyhint else Lazy('unknown', f"{pay.origin}.0")
+        return pay.fields[0]
+
+    def first_targ(fn):
+        m = re.search(r'(?:Result|Option)::<(.*?)>::\w+(::<|$)', fn)
+        return split_top(m.group(1)) if m else []
+
+    @reg(r'^(std::result::)?Result::<.*>::map::<|^(std::option::)?Option::<.*>::map::<')
+    def r_map(ex, st, fn, argv):
+        r = as_enum(ex, st, argv[0])
+        is_opt = 'Option::<' in fn.split('>::map')[0]
+        okidx = 1 if is_opt else 0
+        targs = first_targ(fn)
+        outs = []
+        for (s, c, ok) in ex.fork_on(st, r.disc_bv() == okidx, (r, argv[1])):
+            if ok:
+                v = payload0(ex, s, c[0], okidx, subst(targs[0], ex.cur_bind(s)) if targs else None)
+                outs.append((s, ('CALL', c[1], [v], ('wrap_some',) if is_opt else ('wrap_ok',))))
+            else:
+                outs.append((s, mk_option() if is_opt else Enum(1, {1: c[0].payloads.get(1, Agg({}, '', f"{c[0].origin}#1"))}, 'Result')))
+        return outs
+
+    @reg(r'^(std::result::)?Result::<.*>::and_then::<|^(std::option::)?Option::<.*>::and_then::<')
+    def r_and_then(ex, st, fn, argv):
+        r = as_enum(ex, st, argv[0])
+        is_opt = 'Option::<' in fn.split('>::and_then')[0]
+        okidx = 1 if is_opt else 0
+        targs = first_targ(fn)
+        outs = []
+        for (s, c, ok) in ex.fork_on(st, r.disc_bv() == okidx, (r, argv[1])):
+            if ok:
+                v = payload0(ex, s, c[0], okidx, subst(targs[0], ex.cur_bind(s)) if targs else None)
+                outs.append((s, ('CALL', c[1], [v], None)))
+            else:
+                outs.append((s, mk_option() if is_opt else Enum(1, {1: c[0].payloads.get(1, Agg({}, '', f"{c[0].origin}#1"))}, 'Result')))
+        return outs
+
+    @reg(r'^(std::option::)?Option::<.*>::(unwrap_or_else|map_or_else)::<|^(std::result::)?Result::<.*>::unwrap_or_else::<')
+    def r_unwrap_or_else(ex, st, fn, argv):
+        if 'map_or_else' in fn:
+            raise Unsupported(fn)
+        r = as_enum(ex, st, argv[0])
+        is_opt = 'Option::<' in fn.split('>::unwrap_or_else')[0]
+        okidx = 1 if is_opt else 0
+        outs = []
+        for (s, c, ok) in ex.fork_on(st, r.disc_bv() == okidx, (r, argv[1])):
+            if ok:
+                outs.append((s, payload0(ex, s, c[0], okidx)))
+            else:
+                outs.append((s, ('CALL', c[1], [] if is_opt else [payload0(ex, s, c[0], 1)], None)))
+        return outs
+
+    @reg(r'^(std::option::)?Option::<.*>::ok_or_else::<')
+    def o_ok_or_else(ex, st, fn, argv):
+        r = as_enum(ex, st, argv[0])
+        outs = []
+        for (s, c, ok) in ex.fork_on(st, r.disc_bv() == 1, (r, argv[1])):
+            if ok:
+                outs.append((s, mk_ok(payload0(ex, s, c[0], 1))))
+            else:
+                outs.append((s, ('CALL', c[1], [], ('wrap_err',))))
+        return outs
+
+    @reg(r'^(std::option::)?Option::<.*>::ok_or::<')
+    def o_ok_or(ex, st, fn, argv):
+        r = as_enum(ex, st, argv[0])
+        outs = []
+        for (s, c, ok) in ex.fork_on(st, r.disc_bv() == 1, (r, argv[1])):
+            outs.append((s, mk_ok(payload0(ex, s, c[0], 1)) if ok else mk_err(c[1])))
+        return outs
+
+    @reg(r'^(std::result::)?Result::<.*>::ok$')
+    def r_ok(ex, st, fn, argv):
+        r = as_enum(ex, st, argv[0])
+        outs = []
+        for (s, c, ok) in ex.fork_on(st, r.disc_bv() == 0, r):
+            outs.append((s, mk_option(payload0(ex, s, c, 0)) if ok else mk_option()))
+        return outs
+
+    @reg(r'^(std::result::)?Result::<.*>::(is_ok|is_err)$')
+    def r_is(ex, st, fn, argv):
+        o = as_enum(ex, st, deref(ex, st, argv[0]))
+        return [(st, Bool(o.disc_bv() == (0 if fn.endswith('is_ok') else 1)))]
+
+    @reg(r'^(std::option::)?Option::<.*>::(as_ref|as_mut)$')
+    def o_as_ref(ex, st, fn, argv):
+        r = argv[0]
+        o = as_enum(ex, st, ex.read_path(st, r.cell, r.path))
+        ex.write_path(st, r.cell, r.path, o)
+        outs = []
+        for (s, c, some) in ex.fork_on(st, o.disc_bv() == 1, r):
+            if some:
+                oo = ex.read_path(s, c.cell, c.path)
+                payload0(ex, s, oo, 1)
+                outs.append((s, mk_option(Ref(c.cell, c.path + (('downcast', 'Some'), ('field', 0, '')))))) 
+            else:
+                outs.append((s, mk_option()))
         return outs
 
     @reg(r'^<Box<.*> as Drop>::drop$')
